@@ -194,3 +194,54 @@ func opCmpTree(t Task) Result {
 	res["fails"] = fails.l
 	return res
 }
+
+func init() { register("stmt_fps", opStmtFps) }
+
+// stmt_fps: parse and return, for the statement list reached by `path` (alternating field names and indices
+// from the root), the full and structural fingerprint of every statement, plus errors.
+func opStmtFps(t Task) Result {
+	src := s2b(tStr(t, "src"))
+	p := doParse(src, parseVersion(t), !tBool(t, "nocb"))
+	res := Result{"nerr": len(p.errs), "root": !isNilVertex(p.root)}
+	if isNilVertex(p.root) {
+		return res
+	}
+	var cur interface{} = p.root
+	for _, step := range tArr(t, "path") {
+		switch s := step.(type) {
+		case string:
+			n, ok := cur.(ast.Vertex)
+			if !ok || isNilVertex(n) {
+				res["path_ok"] = false
+				return res
+			}
+			_, v := infoOf(n)
+			f := v.FieldByName(s)
+			if !f.IsValid() {
+				res["path_ok"] = false
+				return res
+			}
+			cur = f.Interface()
+		case float64:
+			l, ok := cur.([]ast.Vertex)
+			if !ok || int(s) >= len(l) {
+				res["path_ok"] = false
+				return res
+			}
+			cur = l[int(s)]
+		}
+	}
+	l, ok := cur.([]ast.Vertex)
+	if !ok {
+		res["path_ok"] = false
+		return res
+	}
+	res["path_ok"] = true
+	var fps []interface{}
+	for _, s := range l {
+		fps = append(fps, []string{fingerprint(s, fpOpts{tokens: true, positions: true, values: true}), fingerprint(s, fpOpts{values: true}), kindName(s)})
+	}
+	res["fps"] = fps
+	res["tree_fp"] = fingerprint(p.root, fpOpts{tokens: true, positions: true, values: true})
+	return res
+}
